@@ -24,7 +24,7 @@ RULE = (
     "arrays from the real init_fn compared with the reference selection semantics, untouched rows compared with the tables; for single "
     "calls also set vs data_set vs trainable 2-step simulations and write_trainables; state = canonical (trainable keys, index groups)"
 )
-REQUIRED_COVER = ["param_state_object_reused", "data_set_through_original_view", "set_between_simulation_and_write_trainables", "init_val:zero", "init_val:float", "init_val:list", "unequal_groups_last_comp_outside", "unequal_groups_last_comp_inside", "nan_rows_skipped", "edge_key_through_type_view",
+REQUIRED_COVER = ["chained_data_set_overlapping_rows", "param_state_object_reused", "data_set_through_original_view", "set_between_simulation_and_write_trainables", "init_val:zero", "init_val:float", "init_val:list", "unequal_groups_last_comp_outside", "unequal_groups_last_comp_inside", "nan_rows_skipped", "edge_key_through_type_view",
                   "edge_select", "shared_over_group", "state_key", "overlapping_trainables", "set_eq_data_set_eq_trainable",
                   "write_trainables", "initial_value_is_group_mean"]
 ASSUMPTIONS = [
@@ -419,7 +419,43 @@ def run_history(modname, hist, simulate=False):
     return out
 
 
+def ds_chain(modname):
+    """Chained data_set calls on ONE key with overlapping rows (broad view first, narrower view second): the later call overrides the
+    earlier one on the rows they share, exactly as the same two set() calls do.  Judged on the arrays that reach the simulator."""
+    out = {"violations": [], "cover": [], "refusals": [], "digests": [], "evals": 0, "transitions": 0}
+    base = _module(modname)
+    views, keys, *_ = TABLES[modname]
+    if modname == "cell":
+        cases = [("radius", 0, 1), ("radius", 3, 5), ("HH_gNa", 8, 1), ("v", 0, 4), ("capacitance", 10, 6)]
+    else:
+        cases = [("radius", 4, 0), ("radius", 0, 3), ("IonotropicSynapse_gS", 6, 7), ("IonotropicSynapse_s", 8, 7), ("v", 4, 2)]
+    for key, vb, vn in cases:
+        wit = {"part": "ds_chain", "module": modname, "key": key, "broad": views[vb][0], "narrow": views[vn][0]}
+        m_ds, m_set = copy.deepcopy(base), copy.deepcopy(base)
+        v1, v2 = (0.37, 0.81) if key not in ("v",) else (-66.0, -58.5)
+        try:
+            ps = views[vb][1](m_ds).data_set(key, v1, None)
+            ps = views[vn][1](m_ds).data_set(key, v2, ps)
+            views[vb][1](m_set).set(key, v1)
+            views[vn][1](m_set).set(key, v2)
+        except Exception as e:
+            out["refusals"].append(f"ds_chain:{key}:{type(e).__name__}")
+            continue
+        out["evals"] += 1
+        got = _sim_arrays(m_ds, param_state=ps).get(key)
+        want = _sim_arrays(m_set).get(key)
+        out["cover"].append("chained_data_set_overlapping_rows")
+        if got is None or want is None or not np.array_equal(np.asarray(got), np.asarray(want), equal_nan=True):
+            out["violations"].append({"sig": {"rule": "chained_data_set_ne_chained_set", "module": modname, "key_kind": "edge" if key in EDGE_KEYS else "node"},
+                                      "witness": wit, "msg": f"{key}: data_set through {views[vb][0]} then {views[vn][0]} reaches the simulator as "
+                                                             f"{None if got is None else np.asarray(got).tolist()}, the same two set() calls as {None if want is None else np.asarray(want).tolist()}"})
+        out["digests"].append(digest(["ds_chain", modname, key, vb, vn]))
+    return out
+
+
 def work(item):
+    if item.get("part") == "ds_chain":
+        return ds_chain(item["module"])
     res = {"violations": [], "cover": [], "refusals": [], "digests": [], "evals": 0, "transitions": 0, "state_hashes": []}
     from vf import env
 
@@ -478,6 +514,7 @@ def explore(ctx):
             n_h += len(triples)
             for i in range(0, len(triples), 40):
                 items.append({"module": modname, "simulate": False, "hists": triples[i:i + 40]})
+    items += [{"part": "ds_chain", "module": "cell"}, {"part": "ds_chain", "module": "net"}]
     ctx.note("histories", n_h)
     res = ctx.map("work", items)
     hashes = set()
@@ -488,5 +525,7 @@ def explore(ctx):
 
 
 def replay(w):
+    if w.get("part") == "ds_chain":
+        return [v for v in ds_chain(w["module"])["violations"] if v["witness"]["key"] == w["key"] and v["witness"]["broad"] == w["broad"]]
     r = run_history(w["module"], [tuple(x) for x in w["history"]], simulate=True)
     return r["violations"] if r else []
